@@ -8,6 +8,7 @@ import (
 	"errors"
 	"fmt"
 	"strings"
+	"sync"
 
 	"golang.org/x/mod/sumdb/note"
 
@@ -54,12 +55,18 @@ type spyVerifier struct {
 
 func (v *spyVerifier) Name() string    { return v.name }
 func (v *spyVerifier) KeyHash() uint32 { return v.hash }
+
+// c07Mu guards what the simulated verifiers record: nothing says that Open calls them from one goroutine.
+var c07Mu sync.Mutex
+
 func (v *spyVerifier) Verify(msg, sig []byte) bool {
 	r := v.verdict
 	if v.inner != nil {
 		r = v.inner.Verify(msg, sig)
 	}
+	c07Mu.Lock()
 	*v.calls = append(*v.calls, c07VerifyCall{v.name, v.hash, string(msg), string(sig), r})
+	c07Mu.Unlock()
 	return r
 }
 
@@ -86,7 +93,9 @@ var c07UnknownSentinel = &note.UnknownVerifierError{}
 var errSimVerifiers = errors.New("simulated Verifiers failure")
 
 func (s *simVerifiers) Verifier(name string, hash uint32) (note.Verifier, error) {
+	c07Mu.Lock()
 	s.lookups++
+	c07Mu.Unlock()
 	var found []int
 	for i, e := range s.entries {
 		if e.name == name && e.hash == hash {
@@ -380,6 +389,56 @@ func c07SignReference(n *note.Note, signers []c07SignerSpec) (want []byte, fail 
 	return []byte(b.String()), false
 }
 
+// c07Canonical: msg is spelled exactly the way Sign would spell it (text, blank line, signature lines
+// with canonical base64).
+func c07Canonical(msg []byte) bool {
+	pn, ok := ref.ParseNote(msg)
+	if !ok {
+		return false
+	}
+	var b strings.Builder
+	b.WriteString(pn.Text)
+	b.WriteString("\n")
+	for _, s := range pn.Sigs {
+		raw, err := base64.StdEncoding.Strict().DecodeString(s.Base64)
+		if err != nil || base64.StdEncoding.EncodeToString(raw) != s.Base64 {
+			return false
+		}
+		b.WriteString("— " + s.Name + " " + s.Base64 + "\n")
+	}
+	return b.String() == string(msg)
+}
+
+// c07NormalSigLines reduces a signed message to what the property pins down about Sign's output: the
+// text, then the signature lines in order of first appearance, identical lines once, base64 respelled
+// canonically. (The unchanged code re-emits existing lines verbatim, duplicates included.)
+func c07NormalSigLines(text string, msg []byte) []byte {
+	prefix := text + "\n"
+	if !strings.HasPrefix(string(msg), prefix) {
+		return msg
+	}
+	var b strings.Builder
+	b.WriteString(prefix)
+	seen := map[string]bool{}
+	for _, line := range strings.SplitAfter(string(msg[len(prefix):]), "\n") {
+		if line == "" {
+			continue
+		}
+		norm := line
+		if f := strings.Split(strings.TrimSuffix(line, "\n"), " "); len(f) == 3 && f[0] == "—" {
+			if raw, err := base64.StdEncoding.DecodeString(f[2]); err == nil {
+				norm = f[0] + " " + f[1] + " " + base64.StdEncoding.EncodeToString(raw) + "\n"
+			}
+		}
+		if seen[norm] {
+			continue
+		}
+		seen[norm] = true
+		b.WriteString(norm)
+	}
+	return []byte(b.String())
+}
+
 type c07Party struct {
 	entries []trustEntry
 	useList bool
@@ -474,7 +533,9 @@ func (p *c07Party) open(res *core.Result, who string, msg []byte) *note.Note {
 		}()
 		n, err = note.Open(msg, p.vs)
 	}()
+	c07Mu.Lock()
 	calls := append([]c07VerifyCall(nil), *p.calls...)
+	c07Mu.Unlock()
 	if err == nil {
 		res.Probes["open-succeeded"]++
 		if exp.fail {
@@ -503,6 +564,13 @@ func (p *c07Party) open(res *core.Result, who string, msg []byte) *note.Note {
 		return n
 	}
 	res.Probes["open-failed"]++
+	if (!exp.fail || exp.unverErr) && !c07Canonical(msg) {
+		// The property promises that what Sign produces opens again; a message that is well-formed by the
+		// documented format but is not spelled the way Sign spells it (base64 with stray padding bits
+		// after a bit flip in transit) may be refused as malformed.
+		res.Probes["open-refused-non-canonical-spelling"]++
+		return nil
+	}
 	if !exp.fail {
 		res.Fail("C07", "open-accepts", "Open rejected a valid message", "%s: Open failed with %v but the message carries a valid signature by a known key and nothing forbids it; message: %q", who, err, clip(string(msg)))
 		return nil
@@ -558,7 +626,7 @@ func (p *c07Party) sign(res *core.Result, who string, n *note.Note) []byte {
 		res.Fail("C07", "sign-succeeds", "Sign failed on valid input", "%s: %v", who, err)
 		return nil
 	}
-	if !bytes.Equal(got, want) {
+	if !bytes.Equal(got, want) && !bytes.Equal(c07NormalSigLines(n.Text, got), c07NormalSigLines(n.Text, want)) {
 		res.Fail("C07", "sign-output", "Sign output is not the documented encoding", "%s: got %q want %q", who, clip(string(got)), clip(string(want)))
 	}
 	return got
